@@ -124,9 +124,9 @@ def run(name, tier, props, seed):
             if rc == 0:
                 results["_applied"] = "3-way merge onto HEAD"
             else:
-                sh(["git", "checkout", "--", "."], wt)
+                sh(["git", "reset", "--hard", "-q"], wt)
                 base = json.load(open(os.path.join(d, "meta.json"))).get("base_commit", "c8329aa")
-                sh(["git", "checkout", "--detach", base], wt)
+                sh(["git", "checkout", "-q", "--detach", base], wt)
                 rc, o = sh(["git", "apply", patch], wt)
                 results["_applied"] = "on base commit " + base
                 if rc != 0:
@@ -152,6 +152,7 @@ def run(name, tier, props, seed):
     mp = os.path.join(d, "meta.json")
     meta = json.load(open(mp))
     suffix = ("/scale" + os.environ["VERIF_SCALE"]) if os.environ.get("VERIF_SCALE") else ""
+    suffix += os.environ.get("SEED_KEY_SUFFIX", "")
     meta.setdefault("checks_run", {}).setdefault("%s/seed%d%s" % (tier, seed, suffix), {}).update(results)
     json.dump(meta, open(mp, "w"), indent=1)
     return 0
